@@ -337,7 +337,9 @@ class SeqHooks(LineHooks):
 
 def rule_connect_sequence(ctx, R):
     ctx.rule(R, "Connection.connect: refuses a connected line; searches a "
-             "duplicate first; a virtual duplicate is substituted, a real one "
+             "duplicate first; a virtual duplicate of the same record type "
+             "(or of unknown type) is substituted, a real one or a "
+             "placeholder of another record type "
              "goes to _process_not_unique, otherwise the owner is set, then "
              "references are initialised, then the line is registered -- in "
              "that order; Disconnection.disconnect removes field "
@@ -351,15 +353,26 @@ def rule_connect_sequence(ctx, R):
                      repo.cls("Line").find_method("disconnect"))
     stubs = ["_search_duplicate", "_substitute_virtual_line",
              "_process_not_unique", "_initialize_references", "_register_line"]
-    for prev in ("none", "virtual", "real", "already-connected"):
+    for prev in ("none", "virtual", "virtual-unknown", "virtual-other-type",
+                 "real", "already-connected"):
         ctx.instance(R)
         gfa = Abs(repo.cls("Gfa"), label="gfa")
         p = None
         if prev == "virtual":
-            p = Abs(line, label="prev", _virtual=True)
+            p = Abs(line, label="prev", _virtual=True, virtual=True,
+                    record_type="E")
+        elif prev == "virtual-unknown":
+            p = Abs(repo.cls("line.Unknown"), label="prev", _virtual=True,
+                    virtual=True, record_type="\n")
+        elif prev == "virtual-other-type":
+            # e.g. the placeholder of a segment mentioned earlier, while the
+            # new line is an edge carrying the same identifier
+            p = Abs(repo.cls("line.segment.GFA2"), label="prev",
+                    _virtual=True, virtual=True, record_type="S")
         elif prev == "real":
-            p = Abs(line, label="prev", _virtual=False)
-        ln = Abs(line, label="line",
+            p = Abs(line, label="prev", _virtual=False, virtual=False,
+                    record_type="E")
+        ln = Abs(line, label="line", record_type="E",
                  _gfa=gfa if prev == "already-connected" else None)
         h = SeqHooks(repo, stubs, {"_search_duplicate": p})
         out = eval_function(repo, f_c, [ln, gfa], hooks=h)
@@ -368,10 +381,10 @@ def rule_connect_sequence(ctx, R):
                   and e[1] == "line"]
         if prev == "already-connected":
             ok = out[0] == "raise" and not seq
-        elif prev == "virtual":
+        elif prev in ("virtual", "virtual-unknown"):
             ok = out[0] == "return" and seq == [
                 "_search_duplicate", "_substitute_virtual_line"]
-        elif prev == "real":
+        elif prev in ("real", "virtual-other-type"):
             ok = out[0] == "return" and seq == ["_search_duplicate",
                                                 "_process_not_unique"]
         else:
